@@ -54,7 +54,7 @@ def js_literal(rng, s, style=None, surrogate_escapes=False):
     """Print `s` as an ECMAScript string literal (random choice of quotes and escapes)."""
     q = rng.choice(('"', '"', "'")) if style is None else style
     out = [q]
-    for ch in s:
+    for i, ch in enumerate(s):
         c = ord(ch)
         if ch == q or ch == "\\":
             out.append("\\" + ch)
@@ -71,7 +71,9 @@ def js_literal(rng, s, style=None, surrogate_escapes=False):
         elif ch == "\x08":
             out.append(rng.choice(("\\b", "\\x08")))
         elif ch == "\x00":
-            out.append(rng.choice(("\\0", "\\x00", "\\u0000")))
+            # "\0" directly followed by a digit would be a legacy octal escape (a syntax error in QML)
+            nxt = s[i + 1:i + 2]
+            out.append(rng.choice(("\\x00", "\\u0000")) if nxt.isdigit() else rng.choice(("\\0", "\\x00", "\\u0000")))
         elif c < 0x20 or c == 0x7f:
             out.append(rng.choice(("\\x%02x" % c, "\\u%04X" % c, "\\u{%x}" % c)))
         elif c in (0x2028, 0x2029, 0xfeff, 0xfffe, 0xffff):
